@@ -427,6 +427,13 @@ func v1Configs() []V1Config {
 	return out
 }
 
+func gcd(a, b int) int {
+	for b != 0 {
+		a, b = b, a%b
+	}
+	return a
+}
+
 func parseManaged(text string) (bufconfig.GenerateManagedConfig, error) {
 	f, err := bufconfig.ReadBufGenYAMLFile(strings.NewReader(text))
 	if err != nil {
@@ -614,7 +621,14 @@ func run(r *evid.Run) {
 	r.Set("configs_v1", len(v1))
 	r.Set("images", len(x.masters))
 
-	r.ParallelFor(total, 0, func(i int) {
+	// visit the work list with a stride coprime to its length, so that a run cut by the deadline has seen a
+	// slice of every block instead of only the first blocks
+	stride := 7919
+	for gcd(stride, total) != 1 {
+		stride++
+	}
+	r.ParallelFor(total, 0, func(k int) {
+		i := int(int64(k) * int64(stride) % int64(total))
 		switch {
 		case i < nFamily:
 			bi := 0
